@@ -54,9 +54,34 @@ package contactql
 //@   ensures [urn] c.propType == PropertyTypeURN ==> result == assets.FieldTypeText
 //@   ensures [attr] c.propType == PropertyTypeAttribute ==> result == attributes[c.propKey]
 
+// NodePre: what the visitor builds - no nil nodes, every operator one of the seven (recursive over the finite tree, A8)
+//@ pure NodePre(n QueryNode) bool reads Condition::operator, BoolCombination::children, elems[QueryNode]
+//@ axiom nodepre_nonnil: forall n QueryNode :: NodePre(n) ==> !isnil(n)
+//@ axiom nodepre_cond: forall n QueryNode :: typeis(n, *Condition) ==> (NodePre(n) <==> (n.(*Condition) != nil && OpWF(n.(*Condition).operator)))
+//@ axiom nodepre_bool: forall n QueryNode :: typeis(n, *BoolCombination) ==> (NodePre(n) <==> (n.(*BoolCombination) != nil && (forall k int :: 0 <= k && k < len(n.(*BoolCombination).children) ==> NodePre(n.(*BoolCombination).children[k]))))
+
+// validating a tree without an error establishes what the evaluator needs of every condition in it
+//@ interface QueryNode.validate
+//@   requires NodePre(self) && !isnil(arg1)
+//@   assigns nothing
+//@   ensures [validated] isnil(result) ==> NodeOK(self, arg1)
+
 //@ func (c *Condition) validate
+//@   implements contactql.QueryNode.validate
+//@   uses nodeok_cond, nodepre_cond
+//@   assigns nothing
+//@   frame_trusted
 //@   requires c != nil && OpWF(c.operator) && !isnil(resolver)
 //@   ensures [validated] isnil(result) ==> CondOK(c, resolver)
+
+//@ func (b *BoolCombination) validate
+//@   implements contactql.QueryNode.validate
+//@   uses nodeok_bool, nodepre_bool, nodepre_nonnil
+//@   requires b != nil && !isnil(resolver)
+//@   assigns nothing
+//@   frame_trusted
+//@ loop 1
+//@   invariant forall k int :: (0 <= k && k <= $i) ==> NodeOK(b.children[k], resolver)
 
 //@ func EvaluateQuery
 //@   nopanic
@@ -169,3 +194,8 @@ package contactql
 //@ func (v *visitor) VisitImplicitCondition
 //@   requires v != nil && !isnil(v.env)
 //@   ensures [no_urn_condition] (v.env.RedactionPolicy() == envs.RedactionPolicyURNs && typeis(result, *Condition)) ==> (result.(*Condition).propType != PropertyTypeURN && !(result.(*Condition).propType == PropertyTypeAttribute && result.(*Condition).propKey == AttributeURN))
+
+// Simplify runs between the validator and the evaluator (ParseQuery) and must hand on NodeOK. Tried: an interface contract
+// `forall r :: old(NodeOK(self, r)) ==> (isnil(result) || NodeOK(result, r))` with loop invariants over the two collected
+// slices; the invariants do not discharge because NodeOK reads elems[QueryNode], which the appends write (a frame of a
+// recursive spec function over writes to fresh arrays, which the generator only has for single-field footprints). Not covered.
